@@ -7,7 +7,7 @@
 #include <time.h>
 #include <unistd.h>
 #include <vector>
-#include <thread>
+#include <pthread.h>
 static std::vector<uint64_t> g_nd, g_tns; static size_t g_ndi, g_ti; static int g_failed;
 extern "C" {
 void vf_init(); void vf_thread_0();
@@ -31,10 +31,12 @@ int main(int argc, char** argv) {
   for (++i; i < argc; ++i) g_tns.push_back(strtoull(argv[i], 0, 10));
   vf_init();
   // every generation runs on its own OS thread, one after the other (real thread_local storage, real thread exit)
-  { std::thread t(vf_thread_0); t.join(); }
-  if (vf_seq_1) { std::thread t(vf_seq_1); t.join(); }
-  if (vf_seq_2) { std::thread t(vf_seq_2); t.join(); }
-  if (vf_seq_3) { std::thread t(vf_seq_3); t.join(); }
+  // (raw pthreads: a harness may define std::thread::_M_start_thread / join itself to play the library's threads)
+  auto run_gen = [](void (*fn)()) { pthread_t t; pthread_create(&t, nullptr, [](void* f) -> void* { ((void (*)())f)(); return nullptr; }, (void*)fn); pthread_join(t, nullptr); };
+  run_gen(vf_thread_0);
+  if (vf_seq_1) run_gen(vf_seq_1);
+  if (vf_seq_2) run_gen(vf_seq_2);
+  if (vf_seq_3) run_gen(vf_seq_3);
   printf(g_failed ? "REPLAY-RESULT violated\n" : "REPLAY-RESULT held\n");
   return g_failed ? 1 : 0;
 }
